@@ -80,6 +80,20 @@ def run(cmd, cwd=None, env=None, timeout=None, check=False):
         raise ToolError("command failed (%d): %s\n%s" % (r.returncode, " ".join(cmd), r.stdout[-4000:]))
     return r.returncode, r.stdout, time.time() - t0
 
+_built_crate = {}
+def build_crate(profile):
+    """offline build of /repo's current tree alone (as the harness's dependency, same features and cfg): what the
+    compile-time probes link against. Independent of whether the harness itself still compiles against it."""
+    if profile in _built_crate:
+        return _built_crate[profile]
+    cmd = ["cargo", "build", "--offline", "-p", "bumpalo"] + (["--release"] if profile == "rel" else [])
+    rc, out, dt = run(cmd, cwd=HARNESS, env={"CARGO_NET_OFFLINE": "true"}, timeout=1800)
+    if rc != 0:
+        raise ToolError("the crate does not build (%s):\n%s" % (profile, out[-6000:]))
+    d = os.path.join(HARNESS, "target", "release" if profile == "rel" else "debug")
+    _built_crate[profile] = d
+    return d
+
 _built = {}
 def build_harness(profile, features=None):
     """offline build of the harness (and of /repo's current tree, as its path dependency)"""
